@@ -444,12 +444,15 @@ class JavaRenderer:
         for i, p in enumerate(m["params"]):
             if i:
                 e.tok(",", glue=True)
-            self.events.append({"e": "formalParam", "name": p["name"], "type": gtext(p["type"])})
+            # (a C-style array declarator `String args[]`: the declarator id reads `args[]`, its identifier `args`)
+            self.events.append({"e": "formalParam", "name": p["name"] + ("[]" if p.get("dims") else ""), "type": gtext(p["type"])})
             for a in p.get("annos", []):
                 e.tok(anno_text(a), glue=(i == 0))
                 self.events.append({"e": "anno", "anno": anno_model(a)})
             e.tok(p["type"], glue=(i == 0 and not p.get("annos")))
             e.tok(p["name"])
+            if p.get("dims"):
+                e.tok("[]", glue=True)
         e.tok(")", glue=True)
         if m.get("throws"):
             e.tok("throws")
